@@ -111,8 +111,11 @@ def main():
         return 0
     if sys.argv[1] == "robust":
         # tools/seeded.py robust <seed> [<seed>...]: every kept change against its property's check at other seeds
+        only = os.environ.get("SEEDED_ONLY", "")  # e.g. SEEDED_ONLY="-7 -8 -9": ids ending in one of these
         for seed in sys.argv[2:]:
             for sid in sorted(os.listdir(os.path.join(VERIF, "seeded"))):
+                if only and not sid.endswith(tuple(only.split())):
+                    continue
                 if os.path.exists(os.path.join(VERIF, "seeded", sid, "meta.json")):
                     run(sid, [], seed=int(seed))
         return 0
